@@ -130,11 +130,16 @@ def result_key(r, ac=True):
 # ----------------------------------------------------------------------------------------------
 # taps: observe a walker from the outside
 # ----------------------------------------------------------------------------------------------
+class Runaway(Exception):
+    """the tapped loop ran far beyond the proved bound: stopped by the harness"""
+
+
 class CountingList(list):
-    """a work stack that counts `append` and `pop`"""
+    """a work stack that counts `append` and `pop` (and stops a runaway loop)"""
     pushes = 0
     pops = 0
     maxlen = 0
+    limit = None
 
     def append(self, x):
         self.pushes += 1
@@ -144,6 +149,8 @@ class CountingList(list):
 
     def pop(self, *a):
         self.pops += 1
+        if self.limit is not None and self.pops > self.limit:
+            raise Runaway(self.pops)
         return list.pop(self, *a)
 
 
@@ -154,7 +161,7 @@ class Injected(Exception):
 class Tap(object):
     """Wraps `walker.functions[...]` (or another dispatch dict) and `walker.stack`."""
 
-    def __init__(self, walker, fun_dict=None, fail_at=None, fail_nodes=()):
+    def __init__(self, walker, fun_dict=None, fail_at=None, fail_nodes=(), limit=None):
         self.walker = walker
         self.d = walker.functions if fun_dict is None else fun_dict
         self.saved = dict(self.d)
@@ -170,6 +177,7 @@ class Tap(object):
             self.d[k] = w
         self.saved_stack = walker.stack
         walker.stack = CountingList(walker.stack)
+        walker.stack.limit = limit
 
     def _wrap(self, fn):
         tap = self
@@ -620,7 +628,7 @@ def run_op(ctx, spec, env, fam, fail_at=None, want_full=False):
     order, index, chl = abstract_graph(root_key, children, direct)
     pre_memo = sorted(index[k] for k in w.memoization if k in index)
     fd = spec.fun_dict(w) if spec.fun_dict else None
-    tap = Tap(w, fun_dict=fd, fail_at=fail_at)
+    tap = Tap(w, fun_dict=fd, fail_at=fail_at, limit=20 * (len(order) + sum(len(c) for c in chl)) + 1000)
     t0 = time.time()
     exc = None
     try:
@@ -672,7 +680,7 @@ def compare(ctx, fam, rec, ans, fam_sig):
                      "%s invoked a callback %d times on one node of %s (%d distinct nodes, %d invocations)" % (
                          rec["op"], rec["maxcount"], fam.name, rec["nodes"], rec["ncalls"]), replay)
         bad = True
-    if rec["i"] > 2 * rec["edges"] + 2:
+    if isinstance(rec["exc"], Runaway) or rec["i"] > 2 * rec["edges"] + 2:
         ctx.report_s(dict(sig, oracle="iterations"), "%s: %d loop iterations > 2*%d+2" % (
             rec["op"], rec["i"], rec["edges"]), replay)
         bad = True
@@ -706,7 +714,7 @@ def tapped_construction(ctx, shape, kind, k):
     env = Environment()
     push_env(env)
     try:
-        tap = Tap(env.stc)
+        tap = Tap(env.stc, limit=2000 * k + 200000)
         t0 = time.time()
         exc = None
         fam = None
@@ -729,7 +737,10 @@ def check_construction(ctx, fam_params, env, fam, crec, fam_sig):
     replay = {"family": fam_params, "op": "construct"}
     sig = dict(fam_sig, op="construct")
     if crec["exc"] is not None:
-        if isinstance(crec["exc"], RecursionError):
+        if isinstance(crec["exc"], Runaway):
+            ctx.report_s(dict(sig, oracle="iterations"),
+                         "type check at construction of %s: more than %s loop iterations" % (fam_params, crec["exc"]), replay)
+        elif isinstance(crec["exc"], RecursionError):
             ctx.report_s(dict(sig, oracle="recursion"),
                          "RecursionError while constructing %s" % (fam_params,), replay)
         else:
